@@ -745,7 +745,18 @@ impl Interp {
             Op::DirectMint { u, st, amt } => {
                 vec![ROp::DirectMint { user: self.user(*u), st: *st, amount: amt.resolve(1_000_000) }]
             }
-            Op::Claim { u, to } => vec![ROp::Claim { user: self.claimant(*u), to: to.map(|t| self.user(t)) }],
+            Op::Claim { u, to } => {
+                // prefer (3 times out of 4) a holder that has something to claim
+                let mut who = self.claimant(*u);
+                if *u % 4 != 3 {
+                    let n = self.cfg.n_users;
+                    let u0 = clampu(*u, n);
+                    if let Some(x) = (0..n).map(|k| user((u0 + k) % n)).find(|x| reward_accrued(w, x) >= 1) {
+                        who = x;
+                    }
+                }
+                vec![ROp::Claim { user: who, to: to.map(|t| self.user(t)) }]
+            }
             Op::Accrue { v, coin, amt } => {
                 // first validator at index >= v (wrapping) on which the hub has stake
                 let n = self.cfg.n_vals;
